@@ -52,7 +52,15 @@ fn gen_source(rng: &mut Rng, stack: bool, prev_labels: &[String]) -> (String, &'
             t.push_str("br L1\nhalt\n");
             (t, "many_labels")
         }
-        0 => (rng.s(&["add r0 r0 #99\n", "x\u{e9} add r0 r0 r0\n@\n", ".stringz \"open\nhalt\n", ".bogus\n", "#70000\n"]).to_string(), "lexer_or_parser"),
+        0 => (rng.s(&["add r0 r0 #99\n", "x\u{e9} add r0 r0 r0\n@\n", ".stringz \"open\nhalt\n", ".bogus\n", "#70000\n",
+            // a stack mnemonic: a lexer error exactly when the feature is off
+            "push r0\nhalt\n", "lab pop r1\n", "add r0 r0 #1\ncall sub\nsub rets\n", "RETS\n"]).to_string(), "lexer_or_parser"),
+        1 if rng.bool() => {
+            // fails in the parser after a *forward reference* was recorded; the label it names is
+            // unlikely to exist in the next source
+            let l = format!("fwd_{}", rng.below(1000));
+            (format!("br {}\nld r1 {}\nadd r0 r0 #99\n{} halt\n", l, l, l), "after_labels")
+        }
         1 => {
             // fails after some labels were recorded
             let l = if prev_labels.is_empty() || rng.bool() { "loop".to_string() } else { rng.pick(prev_labels).clone() };
